@@ -7,23 +7,17 @@ import subprocess
 VERIF = os.path.dirname(os.path.dirname(os.path.abspath(__file__)))
 TECH = "Lean 4 model + kernel-checked theorems; tables regenerated from source; differential correspondence of the model with the real code; judge on implementation behaviour"
 
-CLAIMS = {
-    "C06": dict(
-        text="Proof: for every disk state, identifier list, renew_delay, random_early_renew and admissible random amount, schedule_meets_spec shows the model of schedule_renewal returns 0 when a file is missing or an identifier is not covered and otherwise a wait inside [notAfter - delay - (rer - 1 ns), notAfter - delay] truncated at 0; never_longer, never_negative_or_overflowing, no_empty_range, fresh_cert_waits, backoff_in_bounds complete the statement; far_future_old_is_false / old_agrees_below_limit keep the repaired i32 overflow expressible. Tie: the real Certificate::schedule_renewal is run on certificates made by vhelper (notAfter from far past to far future, SAN subsets/supersets/permutations, files absent or corrupt) and judged by Spec.C06.holdsOutcome, the same predicate the theorem is about.",
-        note="Trusted: Lean kernel + {propext, Classical.choice, Quot.sound}; Lean compiler; probe; vhelper; OpenSSL's ASN1_TIME_diff and X.509 parsing (modelled: the difference in seconds is an input); the jitter distribution is not tested (whole interval accepted); 2 s clock slack.",
-        ref="DESIGN.md section 7 C06"),
-    "C19": dict(
-        text="Proof (partial): period_grammar proves, for every string, that the model of parse_duration accepts exactly the documented grammar with every number/product/sum fitting 64 bits and returns the sum of the parts, and period_total that it has no panic outcome; the model is tied to duration.rs by the regenerated unit table (gen_unit_table) and by exact comparison with the real parse_duration on generated strings. Start-up totality for whole configurations (hook-group cycles, include cycles, zero/huge rate limits, malformed TOML) is validated by driving the real start-up path and first request on a hazard catalogue and field mutations; the toml/serde layer is modelled-not-verified.",
-        note="Trusted: Lean kernel + {propext, Classical.choice, Quot.sound}; the Lean compiler for acmed_model; py/gen.py; the in-crate probe; nom/toml/serde semantics (transliterated or validated, not proved).",
-        ref="DESIGN.md section 7 C19"),
-    "C09": dict(
-        text="Proof: window_safe shows for every limit set (longest period first, which mkLimits_headMax proves of RateLimit::new), every number of passes and every non-decreasing sequence of clock readings that no window (t-p, t] contains more than n admissions (ghost history, not the pruned log); admits_when_room / admits_after_quiet give progress; sleepMs_bounds totality. Tie: the child probe of endpoint.rs runs the real request_allowed / prune_log / get_sleep_duration on injected logs and the real block_until_allowed in real time; results are compared with the model and judged by the window bracket.",
-        note="Proved at the admission instant (what the limiter controls); wire latency after admission, tokio timers and the kernel's monotonic clock are trusted. Call-site coverage (every HTTP path passes the limiter) is checked by the flow runs.",
-        ref="DESIGN.md section 7 C09"),
-}
+def load_claims():
+    d = os.path.join(VERIF, "claims")
+    out = {}
+    for fn in sorted(os.listdir(d)):
+        if fn.endswith(".json"):
+            out[fn[:-5]] = json.load(open(os.path.join(d, fn)))
+    return out
 
 
 def main():
+    CLAIMS = load_claims()
     props = [json.loads(l)["id"] for l in open(os.path.join(VERIF, "properties.jsonl"))]
     checks = []
     for pid in props:
